@@ -48,7 +48,7 @@ def check(run, project):
     l1(run, mod, fns)
     l2(run, mod, fns)
     l3(run, mod, fns)
-    l4(run, mod, fns)
+    l4(run, mod, fns, project)
     l5(run, mod, fns)
     run.floor("L1", 6)
     run.floor("L2", 5)
@@ -79,13 +79,32 @@ def all_exprs(ps):
     return out
 
 
+def choice_values(e):
+    """the option strings an argparse `choices` expression stands for: a list / tuple display of constants, or the keys of a
+    literal table (`list(TABLE)`, `TABLE.keys()`, `tuple(TABLE)`, `sorted(TABLE)`, `[*TABLE]`)"""
+    if e is None:
+        return None
+    if isinstance(e, (ast.List, ast.Tuple)) and len(e.elts) == 1 and isinstance(e.elts[0], ast.Starred):
+        return choice_values(e.elts[0].value)
+    if isinstance(e, (ast.List, ast.Tuple)) and all(isinstance(x, ast.Constant) for x in e.elts):
+        return [x.value for x in e.elts]
+    if isinstance(e, ast.Call) and call_name(e) in ("list", "tuple", "sorted", "set", "frozenset") and len(e.args) == 1 and not e.keywords:
+        return choice_values(e.args[0])
+    if isinstance(e, ast.Call) and isinstance(e.func, ast.Attribute) and e.func.attr == "keys" and not e.args:
+        return choice_values(e.func.value)
+    if isinstance(e, ast.Dict) and all(isinstance(k, ast.Constant) for k in e.keys):
+        return [k.value for k in e.keys]
+    return None
+
+
 def l1(run, mod, fns):
     args = {}
     for st in mod.tree.body:
         if isinstance(st, ast.Assign) and isinstance(st.value, ast.Dict) and isinstance(st.targets[0], ast.Name):
             d = {k.value: v for k, v in zip(st.value.keys, st.value.values) if isinstance(k, ast.Constant)}
-            if "choices" in d and "dest" in d and isinstance(d["choices"], ast.List):
-                args[d["dest"].value] = ([e.value for e in d["choices"].elts], d.get("default"), st)
+            ch = choice_values(d.get("choices"))
+            if ch is not None and "dest" in d:
+                args[d["dest"].value] = (ch, d.get("default"), st)
     for dest, want, users in (("format_in", FRONT, ("convert", "find_type")), ("format_out", OUT, ("convert",))):
         run.require(dest in args, f"C19: argument spec for {dest} not found")
         choices, default, st = args[dest]
@@ -328,22 +347,44 @@ def loops_where(ps, pred, seen=None):
     return out
 
 
-def l4(run, mod, fns):
+def canonical_call(project, call):
+    """the arguments of a Canonical(...) call bound to the constructor's parameters, defaults filled in: {param: text}"""
+    cm = project.module("tpmstream.common.canonical")
+    ini = cm.functions().get("Canonical.__init__")
+    if ini is None:
+        raise AnalysisError("C19: Canonical.__init__ not found")
+    params = [a.arg for a in ini.args.args][1:]
+    dflt = dict(zip(reversed(params), reversed([paths.text(d) for d in ini.args.defaults])))
+    out = dict(dflt)
+    for p_, a_ in zip(params, call.args):
+        out[p_] = paths.text(a_)
+    for k in call.keywords:
+        if k.arg is None or k.arg not in params:
+            return None
+        out[k.arg] = paths.text(k.value)
+    return out
+
+
+def l4(run, mod, fns, project):
+    """the type search: every type of all_types except the stream type and the union types is tried - Response with every
+    command code, any other type once without one; a try is a strict, complete decode `Canonical(buffer, format_in, type,
+    command code, lazy=False, abort_on_error=True)`; a documented rejection skips the candidate, anything else is reported
+    with its command code.  Decided on the path summaries (one outer-loop iteration per type, nested iteration per code)."""
     fn = fns["parse_all_types"]
     trys = [s_ for s_ in ast.walk(fn) if isinstance(s_, ast.Try)]
-    run.require(len(trys) == 1, "C19: try block of parse_all_types not found")
-    t = trys[0]
-    caught = set()
-    for h in t.handlers:
-        if h.type is None:
-            caught.add("*")
-        else:
-            caught |= {norm(e) for e in (h.type.elts if isinstance(h.type, ast.Tuple) else [h.type])}
-    run.ob("L4", DOCUMENTED <= caught, "type search catches every documented decoder error",
-           f"not caught: {sorted(DOCUMENTED - caught)} - a documented rejection would abort the whole `type` listing", module=mod,
-           node=t, func=fn.name, construct="parse_all_types except tuple")
-    run.ob("L4", caught <= DOCUMENTED, "type search catches nothing broader (internal errors are not hidden)",
-           f"also catches {sorted(caught - DOCUMENTED)}", module=mod, node=t, func=fn.name, construct="parse_all_types except breadth")
+    run.require(len(trys) >= 1, "C19: try block of parse_all_types not found")
+    for t in trys:
+        caught = set()
+        for h in t.handlers:
+            if h.type is None:
+                caught.add("*")
+            else:
+                caught |= {norm(e) for e in (h.type.elts if isinstance(h.type, ast.Tuple) else [h.type])}
+        run.ob("L4", DOCUMENTED <= caught, "type search catches every documented decoder error",
+               f"not caught: {sorted(DOCUMENTED - caught)} - a documented rejection would abort the whole `type` listing", module=mod,
+               node=t, func=fn.name, construct="parse_all_types except tuple")
+        run.ob("L4", caught <= DOCUMENTED, "type search catches nothing broader (internal errors are not hidden)",
+               f"also catches {sorted(caught - DOCUMENTED)}", module=mod, node=t, func=fn.name, construct="parse_all_types except breadth")
     ps = paths.Summariser(mod, fn).paths()
     outer = loops_where(ps, lambda n, e: isinstance(n, ast.For) and n in fn.body)
     run.ob("L4", len(outer) == 1 and paths.text(outer[0][2]) == "all_types" and isinstance(outer[0][1].target, ast.Name), "every type is tried",
@@ -351,39 +392,61 @@ def l4(run, mod, fns):
     if len(outer) != 1 or not isinstance(outer[0][1].target, ast.Name):
         return
     tv = outer[0][1].target.id
+    params = [a.arg for a in fn.args.args]
     A, U, R = f"{tv} is CommandResponseStream", f"{tv}.__name__.startswith('TPMU')", f"{tv} is Response"
     spec = [({A: True}, "skip"), ({U: True}, "skip"), ({R: True}, "TPM_CC")]
+
+    def attempts(b, code):
+        """leaf paths of one candidate: [(command-code text, path)]"""
+        out = []
+        lps = [(e, n) for k, e, n in b.effects if k == "loop"]
+        if not lps:
+            return [(code, b)]
+        for e, n in lps:
+            cv = n.target.id if isinstance(n, ast.For) and isinstance(n.target, ast.Name) else None
+            for ib in b.loops[id(n)]:
+                out.extend(attempts(ib, (paths.text(e), cv)))
+        return out
     for b in outer[0][3]:
         lps = [(e, n) for k, e, n in b.effects if k == "loop"]
-        got = "skip" if not lps and b.end in ("continue", "fall") and not b.effect_texts(("yield", "call")) else \
-            paths.text(lps[0][0]) if len(lps) == 1 else "?"
+        direct = [x for x in b.effects if x[0] in ("yield", "try-body")] or any(a.startswith("try@") for a, _v, _ in b.cond)
+        if not lps and not direct and b.end in ("continue", "fall") and not b.effect_texts(("yield", "call")):
+            got = "skip"
+        elif len(lps) == 1 and not direct:
+            got = paths.text(lps[0][0])
+        elif not lps:
+            got = "(None,)"
+        else:
+            got = "?"
         want = paths.decide(spec, "(None,)", b)
         kind = "parse_all_types skips" if got == "skip" or want == {"skip"} else "parse_all_types response codes"
         run.ob("L4", want == {got}, f"type search [{label(b)}]: {got}",
                f"for a type with [{label(b)}] the search does `{got}` where {sorted(want)} is required (only the stream type and union "
                "types are excluded; Response is tried with every command code)", module=mod, node=b.node or (b.cond[-1][2] if b.cond else fn),
                func=fn.name, construct=kind)
-        for e, n in lps:
-            if not isinstance(n, ast.For) or not isinstance(n.target, ast.Name):
+        if got == "skip":
+            continue
+        for code, ib in attempts(b, None):
+            cc = "None" if code is None else code[1]
+            if code is not None and code[0] == "(None,)":
+                cc = code[1]
+            rejected = any(a.startswith("try@") and v for a, v, _ in ib.cond)
+            if rejected:
+                run.ob("L4", ib.end in ("continue", "fall") and not ib.effect_texts(("yield", "call", "store")), "a rejected type is skipped",
+                       "the handler of a rejected candidate does more than go on to the next one", module=mod, node=ib.node or fn,
+                       func=fn.name, construct="parse_all_types handler")
                 continue
-            cv = n.target.id
-            want_call = ("Canonical(input=buffer, format_in=format_in, tpm_type={t}, command_code={c}, lazy=False, abort_on_error=True)"
-                         .format(t=tv, c=cv))
-            for ib in b.loops[id(n)]:
-                rejected = any(a.startswith("try@") for a, _v, _ in ib.cond)
-                if rejected:
-                    run.ob("L4", ib.end == "continue" and not ib.effect_texts(("yield", "call", "store")), "a rejected type is skipped",
-                           "handler does more than continue", module=mod, node=ib.node or n, func=fn.name,
-                           construct="parse_all_types handler")
-                else:
-                    ys = ib.effects and [x for x in ib.effects if x[0] == "yield"]
-                    ok = len(ys) == 1 and isinstance(ys[0][1], ast.Tuple) and len(ys[0][1].elts) == 2 and norm(ys[0][1].elts[1]) == cv \
-                        and isinstance(ys[0][1].elts[0], ast.Call) and call_name(ys[0][1].elts[0]) == "Canonical" \
-                        and sorted((k.arg, norm(k.value)) for k in ys[0][1].elts[0].keywords) == sorted(
-                            (k.arg, norm(k.value)) for k in paths.pattern_expr(want_call).keywords) and not ys[0][1].elts[0].args
-                    run.ob("L4", ok, "each candidate is decoded strictly and completely, and reported with its command code",
-                           f"Canonical(...) arguments changed: yields {[paths.text(y[1]) for y in ys]}", module=mod, node=ib.node or n,
-                           func=fn.name, construct="parse_all_types Canonical")
+            ys = [x for x in ib.effects if x[0] == "yield"]
+            ok = len(ys) == 1 and isinstance(ys[0][1], ast.Tuple) and len(ys[0][1].elts) == 2 and isinstance(ys[0][1].elts[0], ast.Call) \
+                and call_name(ys[0][1].elts[0]) == "Canonical"
+            got_args = canonical_call(project, ys[0][1].elts[0]) if ok else None
+            code_txt = paths.text(ys[0][1].elts[1]) if ok else None
+            want_args = {"input": params[1], "format_in": params[0], "tpm_type": tv, "path": "None", "command_code": cc, "lazy": "False",
+                         "abort_on_error": "True"}
+            ok = ok and got_args == want_args and code_txt == cc
+            run.ob("L4", ok, "each candidate is decoded strictly and completely, and reported with its command code",
+                   f"Canonical(...) arguments changed: the candidate is tried as {got_args} and reported with `{code_txt}`, required "
+                   f"{want_args} reported with `{cc}`", module=mod, node=ib.node or fn, func=fn.name, construct="parse_all_types Canonical")
 
 
 def l5(run, mod, fns):
